@@ -233,6 +233,8 @@ def order_cases(ctx):
 def run(ctx):
     order_cases(ctx)
     world_order_cases(ctx)
+    twice_order_cases(ctx)
+    parallel_order_cases(ctx)
 
 
 def world_order_cases(ctx):
@@ -274,6 +276,114 @@ def world_order_cases(ctx):
         bad = cw.run_order_violation(c, strict=True)
         if bad:
             ctx.violation(bad, c.replay_obj(), signature="world-run-order")
+
+
+def parallel_order_cases(ctx):
+    """-j N: whatever order the layer subprocesses finish in (the layers that come first take longest here), the
+    layers appear in the output - one "Running <layer> tests:" group each - in the layer order"""
+    from harness import corr_world as cw
+    from harness import worlds
+    rng = ctx.rng
+    cases = []
+    for i in range(4 if ctx.quick() else 40):
+        w = worlds.gen_world(rng, n_layers=rng.choice([3, 4]), tests_per_layer=(1, 2), kinds=["pass"], p_fault=0.0, p_write=0.0)
+        non_unit = [l for l in w["layers"] if l["kind"] != "unit"]
+        for l in non_unit:
+            l["setUp"] = l["tearDown"] = True
+            l["tearDownFaults"] = []
+        cases.append(cw.Case(w, {"verbose": rng.choice([0, 1, 2]), "processes": rng.choice([3, 4, 5])}, "parallel-order"))
+    cw.run_models(ctx, cases)
+    for c in cases:
+        if "error" in c.parent_model:
+            continue
+        order = [e[1] for e in c.parent_model["trace"] if e[0] == "spawn"]
+        # the earlier a layer comes, the longer its first test takes
+        for rank, li in enumerate(order):
+            ts = [t for t in c.world["tests"] if t["layer"] == li and not t.get("doctest")]
+            if ts:
+                ts[0]["body"]["sleep"] = round(0.5 * (len(order) - 1 - rank), 2)
+    cw.run_real_cases(ctx, cases)
+    for c in cases:
+        ctx.count(("parallel-order", json_key(c)), nontrivial=True, sample=None)
+        ctx.bump("parallel-order-runs")
+        if c.obs.timeout or "error" in c.parent_model:
+            continue
+        names = {worlds.layer_name(c.world, i): i for i in range(len(c.world["layers"]))}
+        want = [e[1] for e in c.parent_model["trace"] if e[0] == "spawn"]
+        got = [names.get(h, h) for h in worlds.parse_output(c.obs.stdout)["headers"] if h != ".EmptyLayer"]
+        if got != want:
+            ctx.violation("-j %d: the layers appear in the output in the order %r, the layer order is %r" % (
+                c.opts["processes"], got, want), c.replay_obj(), signature="world-run-order")
+
+
+def all_by_alias(w, how=True):
+    """every layer declaration of the world by dotted-name string (wrt.ALIAS_<index>, or with how="canon" the layer's
+    own module.name) instead of by object"""
+    def walk(n):
+        if n.get("lyr") is not None:
+            n["lyrAlias"] = how
+        for k in n.get("kids", []):
+            walk(k)
+    for m in w["modules"].values():
+        for s_ in m["suites"]:
+            walk(s_)
+
+
+def twice_order_cases(ctx):
+    """two runs in one process (an embedding program, the runner's own tests).  The tests name their layers by dotted
+    names, and in the second run those names designate other objects with another base graph: the second run's layer
+    order is the order a fresh process gives that world - it does not depend on what ran before."""
+    from harness import corr_world as cw
+    from harness import worlds
+    rng = ctx.rng
+    for i in range(4 if ctx.quick() else 50):
+        pair = []
+        n_layers = rng.choice([3, 4])
+        for _ in range(2):
+            w = worlds.gen_world(rng, n_layers=n_layers, tests_per_layer=(1, 2), kinds=["pass"], p_fault=0.0, p_write=0.0)
+            for l in w["layers"]:
+                l.pop("falsy", None)
+                for k in ("slowSetUp", "slowTearDown"):
+                    l.pop(k, None)
+                if l["kind"] != "unit":
+                    l["setUp"] = l["tearDown"] = True
+            for t in w["tests"]:
+                for k in ("doctest", "rebind", "ownstream", "label"):
+                    t.pop(k, None)
+            w.pop("sysPathObject", None)
+            for k_, l in enumerate(w["layers"]):
+                if l["kind"] != "unit" and (not l["name"].isidentifier() or l["module"] == "wrt"):
+                    l["module"], l["name"] = "wlayers", "Z%d" % k_
+            w["layerModules"] = True
+            all_by_alias(w, "canon" if i % 2 == 0 else True)
+            pair.append(w)
+        if i % 2 == 0:
+            # the same dotted names in both runs, on other places of another base graph
+            nu1 = [l for l in pair[0]["layers"] if l["kind"] != "unit"]
+            nu2 = [l for l in pair[1]["layers"] if l["kind"] != "unit"]
+            ids = [(l["module"], l["name"]) for l in nu1]
+            rng.shuffle(ids)
+            for l, (m_, n_) in zip(nu2, ids):
+                l["module"], l["name"] = m_, n_
+        o = {"verbose": 1, "processes": 1}
+        obs, err = cw.run_in_process(ctx, [(pair[0], o), (pair[1], o)], tag="tw")
+        c = cw.Case(pair[1], o, "second-run-in-process")
+        c.first_world = pair[0]
+        ctx.count(("twice-order", json_key(c)), nontrivial=True, sample=None)
+        ctx.bump("second-run-in-process")
+        if obs is None:
+            ctx.drift("runner.twice", "worker failed: %s" % err, c.replay_obj())
+            continue
+        c.obs = obs[1]
+        cw.run_models(ctx, [c])
+        if getattr(c.obs, "exc", None):
+            ctx.violation("the second run in the process was aborted: %s" % c.obs.exc[:300],
+                          {"world": pair[1], "first_world": pair[0], "opts": o}, signature="world-run-order")
+            continue
+        bad = cw.run_order_violation(c, strict=True)
+        if bad:
+            ctx.violation("second run in one process, layers named by dotted-name strings: " + bad,
+                          {"world": pair[1], "first_world": pair[0], "opts": o}, signature="world-run-order")
 
 
 def json_key(c):
